@@ -1389,17 +1389,23 @@ func runC19(r *Rng, n int) {
 	wg.Wait()
 	// shrink the first failures (one per target language) and report the smaller programs too
 	seenLang := map[string]bool{}
+	attempts := 0
 	for _, t := range failed {
 		lang, _ := c19Lang(c19Cfgs[t.cfg].gen)
-		if seenLang[lang] || len(seenLang) >= 3 {
+		if seenLang[lang] || len(seenLang) >= 3 || attempts >= 6 {
+			continue
+		}
+		attempts++
+		keep := c19AllKeep(t.p)
+		c19ParallelRuns = true
+		first := c19Task(t.p, keep, t.cfg, 8, false)
+		c19ParallelRuns = false
+		Stat("shrink-attempts")
+		if first.ok || first.invalid != "" {
+			Stat("shrink-failure-not-reproduced") // e.g. only the in-process run differed
 			continue
 		}
 		seenLang[lang] = true
-		keep := c19AllKeep(t.p)
-		first := c19Task(t.p, keep, t.cfg, 8, false)
-		if first.ok || first.invalid != "" {
-			continue
-		}
 		small := c19Shrink(t.p, keep, t.cfg, first.what, 60*time.Second)
 		c19ParallelRuns = true
 		res := c19Task(t.p, small, t.cfg, 8, false)
